@@ -17,7 +17,18 @@ import secsgem.secs.variables as V
 SV = {10: ("sv-ten", "mm", 42), "SV2": ("sv-text", "u", 7)}
 # constants 22 and 23 declare only one limit (None = no limit on that side)
 EC = {20: ("ec-u4", 0, 500, 10, V.U4), 21: ("ec-f4", 0.0, 10.0, 2.5, V.F4), "EC3": ("ec-i4", -5, 5, 1, V.I4),
-      22: ("ec-min-only", 0, None, 7, V.I4), 23: ("ec-max-only", None, 100, 50, V.I4)}
+      22: ("ec-min-only", 0, None, 7, V.I4), 23: ("ec-max-only", None, 100, 50, V.I4),
+      # 24: one byte wide and no declared maximum - 256 and 300 are out of the range the constant can hold at all (D49)
+      24: ("ec-u1-min-only", 0, None, 7, V.U1)}
+
+
+def fits(e, v):
+    """Can the constant's declared type hold the value at all?"""
+    try:
+        EC[e][4](v)
+        return True
+    except Exception:      # noqa: BLE001
+        return False
 
 
 def within(e, v):
@@ -174,7 +185,7 @@ def bnd_variables(tier, seed):
         return ("I4", [v]) if v < 0 else ("U4", [v])
 
     cands = {20: [0, 500, 250, 501, -1, 1000000], 21: [0.0, 10.0, 5.5, 10.5, -0.5, math.nan], "EC3": [-5, 5, 0, 6, -6],
-             22: [0, -1, -5, 1000000], 23: [100, 101, -1000000, 5]}
+             22: [0, -1, -5, 1000000], 23: [100, 101, -1000000, 5], 24: [0, 255, 256, 300]}
     updates = []
     for ecid, vs in cands.items():
         for v in vs:
@@ -200,7 +211,7 @@ def bnd_variables(tier, seed):
             after = {k: h.equipment_constants[k].value for k in EC}
 
             def in_range(e, v):
-                return e in EC and not (isinstance(v, float) and math.isnan(v)) and within(e, v)
+                return e in EC and not (isinstance(v, float) and math.isnan(v)) and within(e, v) and fits(e, v)
             all_ok = all(in_range(e, v) for e, v in upd)
             for k in EC:
                 lo, hi = EC[k][1], EC[k][2]
@@ -217,6 +228,12 @@ def bnd_variables(tier, seed):
                 fails.add("s2f15.valid-update-accepted", dict(w, eac=eac), "an update with known ids and in-range values was refused")
             if not all_ok and eac == 0 and any(e not in EC for e, _ in upd):
                 fails.add("s2f15.unknown-id-refused", dict(w), "an update naming an unknown constant was accepted")
+            if not all_ok and eac == 0 and any(e in EC and not fits(e, v) for e, v in upd):
+                fails.add("s2f15.value-the-type-cannot-hold-refused", dict(w), "a value outside the range of the constant's type was accepted")
+            # the history S2F15 -> S2F13: the constants still answer with their current values
+            probe = sess.ask(2, 13, ("L", [idtree(k) for k in EC]))
+            if not (isinstance(probe, tuple) and probe[0] == "L" and len(probe[1]) == len(EC)):
+                fails.add("s2f13.answers-after-s2f15", dict(w, eac=eac, got=repr(probe)[:120]), "after this S2F15 an S2F13 naming every constant is not answered by S2F14 with one item per constant")
         finally:
             sess.close()
     return {"evaluations": n_eval, "distinct": len(distinct), "failures": list(fails),
